@@ -539,6 +539,11 @@ def inline_reaching(cfg: CFG, at: ast.AST, expr: ast.AST, depth: int = 0, compre
             if not isinstance(node.ctx, ast.Load) or node.id in self.bound or node.id in keep or depth > 4:
                 return node
             defs = cfg.reaching_defs(node.id, here)
+            if defs == {-1}:
+                outer = closure_value(cfg.func, node.id)
+                if outer is not None and depth <= 4:
+                    return clone(outer)
+                return node
             if len(defs) != 1 or -1 in defs:
                 return node
             stmt = cfg.nodes[next(iter(defs))].ast
@@ -647,3 +652,23 @@ def exact_condition(cfg: CFG, node: ast.AST, repo=None, rel: Optional[str] = Non
             parts.append((full, truth))
         forms.append(facts_nnf(parts))
     return nnf_or(forms)
+
+
+def closure_value(func: ast.AST, name: str) -> Optional[ast.AST]:
+    """ value of a free variable of a nested function when the enclosing function binds it exactly once by a plain
+        assignment (and nothing in either function re-binds it): a closure constant """
+    if name in {a.arg for a in getattr(func, "args", ast.arguments(args=[], posonlyargs=[], kwonlyargs=[])).args}:
+        return None
+    if any(isinstance(n, ast.Name) and n.id == name and isinstance(n.ctx, (ast.Store, ast.Del)) for n in walk_local(func)):
+        return None
+    outer = getattr(func, "_parent", None)
+    while outer is not None and not isinstance(outer, (ast.FunctionDef, ast.AsyncFunctionDef)):
+        outer = getattr(outer, "_parent", None)
+    if outer is None:
+        return None
+    stores = [n for n in walk_local(outer) if isinstance(n, ast.Name) and n.id == name and isinstance(n.ctx, (ast.Store, ast.Del))]
+    values = bound_from(outer, name)
+    if len(stores) == 1 and len(values) == 1 and not isinstance(values[0], (ast.ListComp, ast.SetComp, ast.DictComp,
+                                                                         ast.GeneratorExp, ast.Lambda)):
+        return values[0]
+    return None
